@@ -41,6 +41,12 @@ let () = Reg.register "c19.recover" (fun inp out ->
     else if not (RedTerm.check_redterm m nstates nterms nsyms redterm_fuel) then verdict := "bad:reduction-sequences-not-bounded(check_redterm)"
     else if not (RedTerm.check_eoi m nstates (Stdlib.List.nth finals 0)) then verdict := "bad:end-of-input-shifted-outside-the-end-state"
     else if not (let e = get_z errsym in Z.compare e Z0 <> Lt && Z.compare e nsyms = Lt) then verdict := "bad:error-symbol-outside-the-tables"
+    (* premises of the certified-tables theorems (C19_recovering_parse_never_crashes, _terminates_on_certified_tables,
+       _terminates_on_validated_optimized_tables), both encodings: C01's certificate check on the generated certificate and
+       gotoState(s, errSymbol) agreeing with the action table *)
+    else if int_of_z (CertGen.validate gtm m nstates finals P_c01.fuel_cert) <> 0 then verdict := "bad:tables-fail-the-certificate-check(C01)"
+    else if not (RecoverSafe.check_err_goto m nstates nterms (get_z errsym)) then verdict := "bad:goto-on-error-disagrees-with-the-action-table"
+    else if Sys.getenv_opt "VERIF_C19_F4" <> None && not (RedTerm.check_redterm m nstates nterms nsyms (nat_of_int 4)) then verdict := "bad:anchored-reduction-phase-longer-than-4"
     (* gotoState(-1, errSymbol) = -1: evaluated for the default encoding; with optimized tables the generated
        gotoState indexes tmAction[-1] (a panic the model does not reproduce), so the premise is not claimed there *)
     else if opt = None && Z.compare (m.m_goto (z_of_int (-1)) (get_z errsym)) (z_of_int (-1)) <> Eq
